@@ -273,9 +273,139 @@ def closure_in_branch(rng, variant):
     return p
 
 
+# ---------------------------------------------------------------------------------------------
+# prefix-related variable names: `a`, `a2`, `acc`, `a_`, `ab`, … (a textual slip in a kill / gen set — startswith,
+# substring, str() of composites — is invisible with prefix-free one-letter names)
+# ---------------------------------------------------------------------------------------------
+NAME_FAMILIES = [['a', 'a2', 'acc', 'a_', 'ab', 'abx', 'a_b'], ['i', 'ii', 'idx', 'i_', 'it0'], ['s', 's1', 'st', 'sx', 's_t'],
+                 ['v', 'v2', 'val', 'vv', 'v_'], ['x', 'xs', 'x1', 'xy', 'x_']]
+
+
+def rename_locals(prog, rng, fname='f'):
+    """a copy of `prog` in which the variables bound inside `f` (parameters, locals, nested function names and their
+    parameters / locals, nonlocal names) are injectively renamed into a pool of prefix-related names.  Names that are only
+    read (module globals, builtins) and names declared `global` keep their spelling.  Returns None when not applicable."""
+    import ast
+    try:
+        tree = ast.parse(prog.source)
+    except SyntaxError:
+        return None
+    fs = [t for t in tree.body if isinstance(t, ast.FunctionDef) and t.name == fname]
+    if not fs:
+        return None
+    f = fs[0]
+    bound, globals_, used = [], set(), set()
+
+    def add(nm):
+        if nm not in bound:
+            bound.append(nm)
+    for n in ast.walk(f):
+        if isinstance(n, ast.Global):
+            globals_.update(n.names)
+        elif isinstance(n, ast.Nonlocal):
+            for x in n.names:
+                add(x)
+        elif isinstance(n, ast.arg):
+            add(n.arg)
+        elif isinstance(n, ast.Name):
+            used.add(n.id)
+            if isinstance(n.ctx, (ast.Store, ast.Del)):
+                add(n.id)
+        elif isinstance(n, (ast.FunctionDef, ast.ClassDef)) and n is not f:
+            add(n.name)
+        elif isinstance(n, ast.keyword) and n.arg is not None:
+            used.add('kw:' + n.arg)
+        elif isinstance(n, (ast.Import, ast.ImportFrom, ast.ExceptHandler)):
+            return None
+    bound = [b for b in bound if b not in globals_]
+    if len(bound) < 2:
+        return None
+    keep = {u for u in used if u not in bound} | globals_ | {fname}
+    pool = []
+    fams = NAME_FAMILIES[:]
+    rng.shuffle(fams)
+    k = 0
+    while len(pool) < len(bound) and k < 7:          # take the families column-wise so that related names are really used
+        for fam in fams:
+            if k < len(fam) and fam[k] not in keep and fam[k] not in pool:
+                pool.append(fam[k])
+        k += 1
+    # keep each family together: sort pool by family, then assign the most related names first
+    pool = sorted(pool, key=lambda nm: (next(i for i, fam in enumerate(fams) if nm in fam), len(nm)))[:max(len(bound), 0)]
+    if len(pool) < len(bound):
+        return None
+    order = bound[:]
+    rng.shuffle(order)
+    m = dict(zip(order, pool))
+    nested = {g.name for g in ast.walk(f) if isinstance(g, ast.FunctionDef) and g is not f}
+    for n in ast.walk(f):            # keyword calls of renamed nested-function parameters (before the names change)
+        if isinstance(n, ast.Call) and isinstance(n.func, ast.Name) and n.func.id in nested:
+            for kw in n.keywords:
+                if kw.arg in m:
+                    kw.arg = m[kw.arg]
+    for n in ast.walk(f):
+        if isinstance(n, ast.Name) and n.id in m:
+            n.id = m[n.id]
+        elif isinstance(n, ast.arg) and n.arg in m:
+            n.arg = m[n.arg]
+        elif isinstance(n, ast.Nonlocal):
+            n.names = [m.get(x, x) for x in n.names]
+        elif isinstance(n, (ast.FunctionDef, ast.ClassDef)) and n is not f and n.name in m:
+            n.name = m[n.name]
+    lines = prog.source.split('\n')
+    head = '\n'.join(lines[:f.lineno - 1 - len(f.decorator_list)])
+    src = head + ('\n' if head else '') + ast.unparse(f) + '\n'
+    try:
+        compile(src, '<renamed>', 'exec')
+    except SyntaxError:
+        return None
+    q = progen.Program(src, prog.inputs, set(prog.features) | {'prefix_names'}, 'renamed', decisions=prog.decisions,
+                       meta={'scenario': prog.meta.get('scenario'), 'renamed_from': prog.key, 'renaming': m})
+    return q
+
+
+def prefix_names(rng, variant):
+    """two (or three) locals whose names are in a textual prefix relation; the shorter one is rebound / deleted / used as a loop
+    target or closure variable while the longer one holds a value that is read afterwards — and the other way round; also
+    attribute / subscript composites next to a plain name with the same spelling prefix"""
+    b = _B(rng)
+    fam = NAME_FAMILIES[variant % len(NAME_FAMILIES)]
+    sh, lg, lg2 = fam[0], fam[1 + variant % 2], fam[3 + variant % 2]
+    b.e(0, 'def f(a0, b0, c0):')
+    b.e(1, '%s = a0' % sh); b.e(1, '%s = b0' % lg); b.e(1, '%s = c0' % lg2)
+    b.features.add('prefix_names')
+    form = (variant // len(NAME_FAMILIES)) % 8
+    if form == 0:
+        b.e(1, '%s = tr(%d, %s)' % (sh, b.slot(), sh))
+    elif form == 1:
+        b.e(1, 'if d():'); b.e(2, '%s = tr(%d)' % (sh, b.slot()))
+    elif form == 2:
+        b.e(1, 'for %s in n():' % sh); b.e(2, '%s = %s + tr(%d, %s)' % (lg2, lg2, b.slot(), sh))
+    elif form == 3:
+        b.e(1, 'del %s' % sh); b.e(1, '%s = tr(%d)' % (sh, b.slot()))
+    elif form == 4:
+        b.e(1, 'while d():'); b.e(2, '%s += 1' % sh); b.e(2, 'if d():'); b.e(3, '%s = tr(%d, %s)' % (lg, b.slot(), lg))
+    elif form == 5:
+        b.e(1, 'def g():'); b.e(2, 'nonlocal %s' % sh); b.e(2, '%s = tr(%d, %s)' % (sh, b.slot(), lg)); b.e(2, 'return %s' % lg2)
+        b.e(1, 'if d():'); b.e(2, '%s = tr(%d)' % (lg, b.slot())); b.e(1, '%s = g()' % lg2)
+    elif form == 6:
+        b.e(1, 'o = Obj0()'); b.L.insert(0, 'class Obj0(object):\n    pass')
+        b.e(1, 'o.%s = tr(%d, %s)' % (lg, b.slot(), lg)); b.e(1, '%s = tr(%d, o.%s)' % (sh, b.slot(), lg))
+        b.e(1, 'if d():'); b.e(2, 'o = Obj0()'); b.e(2, 'o.%s = 0' % lg)
+        b.e(1, '%s = tr(%d, o.%s, %s)' % (lg2, b.slot(), lg, sh))
+    else:
+        b.e(1, 'l = [%s, %s]' % (sh, lg)); b.e(1, 'l[0] = tr(%d, %s)' % (b.slot(), sh)); b.e(1, 'if d():'); b.e(2, 'l = [0, 1]')
+        b.e(1, '%s = tr(%d, l[0], %s)' % (sh, b.slot(), lg))
+    if variant % 3 == 0:
+        b.e(1, 'if d():'); b.e(2, '%s = tr(%d, %s, %s)' % (lg2, b.slot(), lg, lg2))
+    b.e(1, 'return tr(0, %s, %s, %s)' % (lg, lg2, sh))
+    return b.prog('prefix_names')
+
+
 FAMILIES = [('zero_trip_for', zero_trip, 30), ('closure', closure, 60), ('lambda_later', lambda_later, 6),
             ('closure_binds_local', closure_binds, 12), ('misc', misc, 18),
-            ('def_time_reads', def_time, 27), ('closure_in_branch', closure_in_branch, 72)]
+            ('def_time_reads', def_time, 27), ('closure_in_branch', closure_in_branch, 72),
+            ('prefix_names', prefix_names, 80)]
 
 
 def scenario_programs(rng, scale=1):
